@@ -76,13 +76,15 @@ type infoD struct {
 }
 
 type hCase struct {
-	Kind  string `json:"kind"`            // hash | order | xml
+	Kind  string `json:"kind"`            // hash | order | xml | dst
 	Via   string `json:"via"`             // struct | xml | rawxml
 	Info  infoD  `json:"info"`            // the value hashed (for rawxml: as decoded)
 	Perm  *infoD `json:"perm,omitempty"`  // order failures: the permuted value
 	Level string `json:"level,omitempty"` // order failures: what was permuted
 	Raw   HS     `json:"raw,omitempty"`   // rawxml: the document
 	Dst   HS     `json:"dst,omitempty"`
+	Bufs  []bufD  `json:"bufs,omitempty"`  // kind dst: the caller's buffers
+	Steps []stepD `json:"steps,omitempty"` // kind dst: the calls (dst.go)
 }
 
 func cloneInfo(d infoD) infoD {
@@ -640,6 +642,13 @@ type runner struct {
 	r     *hx.Rand
 	bytes int
 	limit int // budget of Coq term bytes
+
+	tc     hx.CaseFile // histories of calls for the heap model (dst.go)
+	tbytes int
+	tlimit int
+
+	dstEvery int // one() runs a seeded history per info; every dstEvery-th goes to the heap model (0: none)
+	dstCount int
 }
 
 func (x *runner) build(via string, d infoD) disco.Info {
@@ -907,6 +916,12 @@ func (x *runner) one(via string, d infoD, emit bool) {
 		out, _, p := verString(x.build(via, d), dst)
 		c.Dst = HS(dst)
 		x.emit(c, dst, p != "", out)
+	}
+	// 6. the destination as a slice: capacities, spare contents, reused buffers
+	if x.dstEvery > 0 {
+		x.dstCount++
+		bufs, steps := x.genHistory(len(s0))
+		x.history(via, d, bufs, steps, emit && x.dstCount%x.dstEvery == 0)
 	}
 }
 
@@ -1585,6 +1600,8 @@ func main() {
 	res := hx.NewResult("C20")
 	x := &runner{res: res, r: hx.NewRand(o.Seed), limit: 4500000}
 	x.hc = hx.CaseFile{Name: "hash", Imports: imports, Ok: "case_ok", Type: "hcase"}
+	x.tc = hx.CaseFile{Name: "tail", Imports: tailImports, Ok: "tcase_ok", Type: "tcase"}
+	x.tlimit = 3000000
 
 	if o.Replay != "" {
 		b, err := os.ReadFile(o.Replay)
@@ -1601,6 +1618,8 @@ func main() {
 		}
 		c := rp.Case
 		switch {
+		case c.Kind == "dst":
+			x.history(c.Via, c.Info, c.Bufs, c.Steps, true)
 		case c.Via == "rawxml":
 			x.rawXML(string(c.Raw), true)
 		default:
@@ -1616,10 +1635,12 @@ func main() {
 		if o.Thorough() {
 			n, nraw, every = 20000, 5000, 3
 			x.limit = 30000000
+			x.tlimit = 20000000
 		}
 		if o.Search {
 			n, nraw = 10000, 2500
 			x.limit = 0
+			x.tlimit = 0
 		}
 		for _, e := range corpus() {
 			x.one(e.via, cloneInfo(e.d), true)
@@ -1628,6 +1649,13 @@ func main() {
 			x.rawXML(doc, true)
 		}
 		x.xepExamples()
+		x.dstCorpus()
+		nd := x.dstScope()
+		res.Extra["exhaustive_destination_scope"] = fmt.Sprintf("%d calls: destinations of length 0,1,2,3,5 x every spare capacity 0..128 and the boundaries of the digest and of its base64 x hash sizes 1,2,3,20,28,32,48,64 and the recording hash x 2 info values; every one judged by the oracle, the boundary shapes also by the heap model", nd)
+		x.dstEvery = 3
+		if o.Thorough() {
+			x.dstEvery = 2
+		}
 		ns := x.smallScope(every)
 		res.Extra["exhaustive_small_scope"] = fmt.Sprintf("%d infos: every sequence of up to 3 forms over a pool of 6 shapes (empty, no FORM_TYPE, equal and prefix-related FORM_TYPEs), every duplicate-free sequence of up to 3 identities over 4, every sequence of up to 3 features over 4; each with every permutation at every level", ns)
 		total := x.limit
@@ -1654,10 +1682,15 @@ func main() {
 		"(form.New, any bytes) and decoded from generated disco#info replies (interleaved children, every field type, missing type/var, empty forms) " +
 		"plus a mangled-reply stream (junk elements, truncation, emptied forms); per input: AppendHash/Hash with a recording hash, section 5.1 reference, " +
 		"Hash vs AppendHash(nil/empty), nine hash functions on a third of the inputs, permutations of identities/features/forms/fields/values " +
-		"(all permutations up to 4 elements, else reverse/rotate/shuffle); distinct = hash of (construction path, info value); " +
+		"(all permutations up to 4 elements, else reverse/rotate/shuffle); destinations of AppendHash as slices: corpus and exhaustive scope of (length, capacity) shapes " +
+		"(nil, empty with capacity 0..128 and around the digest and base64 lengths, non-empty with spare capacity, windows in the middle of an array, junk in the spare cells), " +
+		"buffers reused between calls and results reused as destinations, for hash sizes 1..64, the recording hash and the real functions, plus one seeded history of 1-4 calls per info value: " +
+		"an empty destination must give what Hash gives, every history is replayed by the heap model; distinct = hash of (construction path, info value); " +
 		"non-trivial = at least two identities+features or at least one form"
 	res.CaseFiles = append(res.CaseFiles, x.hc.Write(o.Out, 400)...)
-	res.Extra["model_cases"] = x.hc.Len()
-	res.Extra["model_case_bytes"] = x.bytes
+	res.CaseFiles = append(res.CaseFiles, x.tc.Write(o.Out, 400)...)
+	res.Extra["model_cases"] = x.hc.Len() + x.tc.Len()
+	res.Extra["model_case_bytes"] = x.bytes + x.tbytes
+	res.Extra["model_cases_heap"] = x.tc.Len()
 	res.Write(o.Out)
 }
